@@ -163,7 +163,7 @@ BUDGET = {
     # property: (quick_n, quick_budget_s, thorough_n, thorough_budget_s)
     "default": (2500, 100, 60000, 1200),
     "C14": (2500, 150, 40000, 1500),
-    "C16": (14, 150, 400, 1800),   # number of *scenarios*; each is expanded into H+1 restart points x modes
+    "C16": (24, 150, 400, 1800),   # number of *scenarios*; each is expanded into H+1 restart points x modes
     "C11": (1500, 150, 40000, 1500),
     "C15": (2000, 120, 60000, 1200),
 }
